@@ -279,7 +279,17 @@ impl Ranges {
         };
 
         ranges.deserialize_inner(seq, parsed_value_seed)?;
+
+        // only a type and no range: `["i32"]`
+        if ranges.is_empty() {
+            return Err(serde::de::Error::custom(Error::EmptyRange));
+        }
+
         Ok(ranges)
+    }
+
+    pub fn is_empty(&self) -> bool {
+        self.try_for_each_value(|_| Err(())).is_ok()
     }
 
     pub fn from_type(range_type: RangeType) -> Self {
